@@ -289,7 +289,14 @@ def table_keys():
     for k in real_module('athlib.bulgarian_score').scores:
         m = re.match(r'^(U\d+)([MFX])(.*)$', k)
         out.append(('bulgarian', m.group(3) if m else k))
-    out += [('athlon', o['event_code']) for o in real_module('athlib.athlon_score')._scoring_table]
+    am = real_module('athlib.athlon_score')
+    out += [('athlon', o['event_code']) for o in am._scoring_table]
+    # ... and the index the scorer builds from it on first use (keys 'G-CODE')
+    try:
+        am._scoring_objects_create()
+        out += [('athlon-index', str(k).split('-', 1)[-1]) for k in (am._scoring_objects or {})]
+    except Exception:
+        pass
     from athlib.wma.agegrader import AgeGrader, AthlonsAgeGrader
     for y in ('2015', '2023'):
         d = AgeGrader(y).get_data()
@@ -326,8 +333,39 @@ def _ground_one(g):
     return False
 
 
+def exercise_scorers():
+    """use every scorer with good and with mistyped codes (a forgotten unit, a stray digit, white space): the tables must carry
+    the same keys afterwards - a key filed under whatever the caller typed would not be an event code"""
+    import athlib
+    calls = []
+    junk = ['SP7.26', 'DT1.5', 'HT 6', 'HJ1', 'JT8OO', '100 m', '1OO', 'SP 7.26 k g', 'xx', '', 'DT1.5KK', 'LJ.', '4x1OO']
+    good = ['100', 'SP', 'HJ', 'JT', 'SP7.26K', 'JT800', '800', '110H', 'DT1.5K']
+    for code in good + junk:
+        calls += [(athlib.athlon_score, ('M', code, 10.5)), (athlib.athlon_score, ('F', code, 10.5, 40)),
+                  (athlib.athlon_performance_needed, ('M', code, 800)), (athlib.hungarian_score, ('M', 'OUT', code, 10.5)),
+                  (athlib.tyrving_score, ('M', 15, code, 12.5)), (athlib.qkids_score, ('QKSEC', code, 12.5)),
+                  (athlib.sportshall_score, (code, '12.5')), (athlib.bulgarian_score, ('U16', 'M', code, 12.5)),
+                  (athlib.wma_age_factor, ('m', 50, code)), (athlib.wma_world_best, ('m', code)), (athlib.wma_athlon_age_factor, ('M', 50, code))]
+    n = 0
+    import io, contextlib
+    for f, a in calls:
+        n += 1
+        try:
+            with contextlib.redirect_stdout(io.StringIO()):
+                f(*a)
+        except Exception:
+            pass
+    return n
+
+
 def ground(run):
-    for tab, k in table_keys():
+    before = set(table_keys())
+    ncalls = exercise_scorers()
+    after = table_keys()
+    new = [t for t in after if t not in before]
+    name = 'table-keys-are-the-same-after-use/%d-calls-with-good-and-mistyped-codes' % ncalls
+    run.record(name, 'ground', 'refuted' if new else 'proved', 'ground-evaluation', 0.0, 'tables')
+    for tab, k in after:
         bad = _ground_one(('key', tab, k))
         name = 'table-key-accepted/%s/%s' % (tab, k)
         if not bad:
@@ -434,6 +472,12 @@ def main(tier, seed):
                'reading: U9/U11 have no implement in the table; ValueError is a permitted refusal there (DESIGN §6)')
     from pyvc.frames import frame_obligations
     frame_obligations(run, [_impl().get_implement_weight, _impl().get_specific_event_code])
+    # the scorers only BUILD their tables (a single publish of a complete object): none of them files anything in a table in use
+    import athlib as _a
+    frame_obligations(run, [real_module('athlib.athlon_score').score, real_module('athlib.athlon_score').performance,
+                            real_module('athlib.hungarian_score').score, real_module('athlib.tyrving_score').tyrving_score,
+                            real_module('athlib.qkids_score').qkids_score, real_module('athlib.sportshall_score').sportshall_score,
+                            real_module('athlib.bulgarian_score').score])
     J = [('masters', (ev, g)) for ev in EVENTS for g in 'MF'] + [('specific', (ev, g)) for ev in EVENTS for g in 'MF'] + [('pass', ())] + \
         [('modular', (ev,)) for ev in EVENTS]
     results = report.pool_map(_work, J)
